@@ -124,7 +124,7 @@ type Bridge struct {
 	Forwarded atomic.Int64
 	// HandedDead counts the requests handed over under a context that had already ended (nothing is sent for those).
 	HandedDead atomic.Int64
-	open      atomic.Int64
+	open       atomic.Int64
 }
 
 // SetFault installs the fault injector while requests may already be in flight.
